@@ -2,6 +2,10 @@
 package c03
 
 import (
+	"fmt"
+	"os"
+	"strings"
+
 	"verifharness/core"
 	"verifharness/netsim"
 )
@@ -14,5 +18,24 @@ func Main() {
 	r.Assume("the simulator delivers to a node only through its real receive loop; gossip emulation offers what real reactors send (state-based, maj23 exchange), adversary < 1/3 of the power")
 	r.Cases("scenario", len(allScenarios())*8, core.Opts{Procs: 16, StallSec: 300}, scenarioCase)
 	r.Cases("random", r.N(400, 8000), core.Opts{Procs: 16, StallSec: 300}, func(c *core.Case) { netsim.RandomCase(c, "C03", 7, 400) })
+	if !r.Quick() {
+		// E-live under the race detector: real reactors, switches and tickers; the monitors judge, the race detector
+		// reports the interleavings that occurred (reports are keyed by the pair of innermost go-kardia frames)
+		dir, _ := os.MkdirTemp("", "verifrace")
+		defer os.RemoveAll(dir)
+		r.Cases("live", 12, core.Opts{Procs: 6, StallSec: 400, Race: true, Env: []string{"GORACE=halt_on_error=0 log_path=" + dir + "/race"}}, func(c *core.Case) { netsim.LiveCase(c, "C03") })
+		if !r.IsChild() {
+			keys, reports := netsim.RaceKeys(dir + "/race")
+			r.Extra("race_reports", reports)
+			r.Extra("race_keys", keys)
+			for k, n := range keys {
+				if strings.Contains(k, "verifharness/") && !strings.Contains(k, "go-kardia") {
+					r.Inconclusive("data race inside the harness: " + k)
+					continue
+				}
+				r.Violation(0, "live", "race:"+k, fmt.Sprintf("data race reported %d times by the race detector in the live cluster: %s", n, k), map[string]interface{}{"key": k, "reports": n})
+			}
+		}
+	}
 	r.Finish()
 }
